@@ -123,7 +123,7 @@ func cdclDesigns(allCert bool) []core.Design {
 		}
 		return res
 	}
-	return []core.Design{
+	ds := []core.Design{
 		{Name: "simplify", Module: "Simplify", Cfg: "Simplify_quick.cfg", Tier: "quick", ToCases: simp, Timeout: 10 * time.Minute, XmxMB: 8000},
 		{Name: "simplify", Module: "Simplify", Cfg: "Simplify_thorough.cfg", Tier: "thorough", ToCases: simp, Timeout: 40 * time.Minute, XmxMB: 16000},
 		{Name: "simplify-prefix", Module: "Simplify", Cfg: "Simplify_prefix.cfg", Workers: 2, XmxMB: 4000, Timeout: 10 * time.Minute, ExpectViolation: "Fixpoint"},
@@ -131,6 +131,10 @@ func cdclDesigns(allCert bool) []core.Design {
 		{Name: "cdcl", Module: "CDCL", Cfg: "CDCL_thorough.cfg", Tier: "thorough", Coverage: true, MustCover: actions, ToCases: toCases, Timeout: 40 * time.Minute, XmxMB: 24000},
 		{Name: "cdcl-live", Module: "CDCL", Cfg: "CDCL_live.cfg", Timeout: 5 * time.Minute},
 	}
+	if allCert { // C06: the certificate as the checker sees it (lines follow from the formula and the earlier lines)
+		ds = append(ds, core.Design{Name: "cdcl-certificate", Module: "CDCLCert", Cfg: "CDCLCert_late.cfg", Workers: 6, XmxMB: 8000, Timeout: 20 * time.Minute})
+	}
+	return ds
 }
 
 func init() {
